@@ -958,6 +958,66 @@ def model_roundtrip_case(ctx, sc, mopts, sid, divs):
         shutil.rmtree(d, ignore_errors=True)
 
 
+def check_hook_histories(ctx, divs, only=None):
+    """(a) ONE SavingHook object serves two runs with different run directories in one process (a sweep);
+    (b) the step counter passes 999 999 -> 1 000 000 (seven digits in `step_%06d`).  After every save a
+    fresh TrainingRun on the directory resumes exactly what was saved there."""
+    import contextlib
+    import io
+
+    from ..lib import snap_common as sc
+
+    m = sc.mods()
+    opts = {"model": dict(SHAPES[0], positional_encoding="sin", head="policy")}
+
+    def cmp(what, d, fp, inp):
+        ctx.evaluated()
+        _run, (kind, detail, _) = sc.resume_outcome(d, opts)
+        if kind != "loaded":
+            diffs = ["a fresh run on the directory %s" % ("starts from scratch" if kind == "fresh" else "fails: %s" % detail)]
+        else:
+            diffs = ["%s differs" % c for c in ("params", "opt", "replay", "counters") if detail[c] != fp[c]]
+            if diffs and detail.get("step") != fp.get("step"):
+                diffs.append("resumed at step %s, saved at step %s" % (detail.get("step"), fp.get("step")))
+        if diffs:
+            divs.append(Divergence("corr.snapshot:roundtrip", dict(inp, what=what), "; ".join(diffs), "the saved state, exactly"))
+
+    top = tempfile.mkdtemp(prefix="c19-hh-")
+    try:
+        if only in (None, "shared-hook"):
+            inp = {"kind": "hook-history", "case": "shared-hook"}
+            hook = m.saving.SavingHook(freq=1)
+            fps = []
+            for name, sid, step in (("A", 51, 3), ("B", 52, 5)):
+                run = sc.fresh_run(os.path.join(top, name), opts)
+                sc.init_state(run, sid, step)
+                hook.before_run(run.state, run.config)
+                with contextlib.redirect_stdout(io.StringIO()):
+                    hook.after_run(run.state)
+                fps.append((name, sc.fingerprint(run.state)))
+            ctx.count("hook-history:one-hook-two-runs")
+            ctx.nontrivial("hook-history|shared")
+            for name, fp in fps:
+                cmp("run %s of two runs that shared one SavingHook object" % name, os.path.join(top, name), fp, inp)
+        if only in (None, "million-steps"):
+            inp = {"kind": "hook-history", "case": "million-steps"}
+            d = os.path.join(top, "M")
+            run = sc.fresh_run(d, opts)
+            sc.init_state(run, 53, 999_990)
+            hook = m.saving.SavingHook(freq=1)
+            hook.before_run(run.state, run.config)
+            for step in (999_991, 999_993, 999_994, 999_995, 999_996, 999_997, 999_998, 999_999, 1_000_000, 1_000_001, 1_000_002):
+                run.state.elapsed.step = step
+                run.state.elapsed.positions += 7
+                with contextlib.redirect_stdout(io.StringIO()):
+                    hook.after_step(run.state)
+                ctx.count("hook-history:saves-around-step-1000000")
+                ctx.nontrivial("hook-history|%d" % step)
+                cmp("after the save at step %d" % step, d, sc.fingerprint(run.state), inp)
+    finally:
+        shutil.rmtree(top, ignore_errors=True)
+
+
 def check_model_roundtrip(ctx, divs, only=None):
     from ..lib import snap_common as sc
 
@@ -1229,6 +1289,7 @@ def tie(ctx):
     for part, comp, kind in (
         (check_modes, "corr.snapshot:modes", "modes"),
         (check_model_roundtrip, "corr.snapshot:roundtrip", "model-roundtrip"),
+        (check_hook_histories, "corr.snapshot:roundtrip", "hook-history"),
         (check_window, "corr.snapshot:window", "window"),
         (observe_serve_precision, "corr.snapshot:window", "window"),  # it drives train_step
         (check_startup_sequence, "corr.snapshot:startup", "startup-sequence"),
@@ -1326,6 +1387,9 @@ def replay(ctx, data):
         return [Violation("mode-switch-mismatch", "%s: %s vs %s" % (d.input, d.impl, d.model), d.input) for d in divs]
     if kind == "model-roundtrip":
         check_model_roundtrip(ctx, divs, only=r["model"])
+        return [Violation("roundtrip-mismatch", "%s: %s vs %s" % (d.input, d.impl, d.model), d.input) for d in divs]
+    if kind == "hook-history":
+        check_hook_histories(ctx, divs, only=r.get("case"))
         return [Violation("roundtrip-mismatch", "%s: %s vs %s" % (d.input, d.impl, d.model), d.input) for d in divs]
     if kind == "window":
         check_window(ctx, divs)
